@@ -1343,6 +1343,7 @@ func runC10(tier, replay string) int {
 	r.Sample(enum[len(enum)/2])
 	r.Sample(map[string]any{"name": random[0].Name, "length": len(random[0].Steps), "split": random[0].Split, "first_steps": random[0].Steps[:8]})
 
+	r.Extra("added_in_seeding_round_6", "a quarter of the title steps of the entity API build the set-title operation with a `was` that is not the title in force (as written concurrently in another clone)")
 	return r.Finish("every sequence of length <= 3 (thorough 4) over a 13-symbol alphabet after the create, in memory with every assignment of up to 4 authors to the create and the operations (up to renaming; length 4: 8 assignments), plus seeded random sequences of 20..300 symbols by 1..4 authors, each run (1) in memory with bug.Compile() after every step, compiled twice, committed to the in-memory backend, re-read and compiled from scratch, and (2) on a real repository (every enumerated sequence once, author assignment drawn from the seed): a prefix written with the entity API, the rest appended through BugCache with BugCache.Snapshot() compared after every operation, after commit (also against a from-scratch compilation of the bug re-read from git) and after closing and reopening the cache; (3) failed and partial commits: operations of 1..3 authors staged in one BugCache (4 fixed stagings through both Commit and CommitAsNeeded, every assignment of 3 authors to 1..3 (thorough 4) staged operations, longer ones drawn from the seed), the commit repeated on a fresh bug once per mutating storage call of its fault-free run with that call returning an error (clock increment, blobs, trees, commit of every run of same-author operations, ref update), BugCache.Snapshot() compared right after the failed commit, after the retry (when NeedCommit) and after one more committed operation with a compilation from scratch of the entity the BugCache holds, with the reference interpretation of the operations that entity holds, and (after the commit that returned nil) with a compilation of the bug re-read from git; actors and participants are compared as duplicate-free sets with the model (must/any-author rules); a case is non-trivial when at least one operation follows the create (fault case: the commit returned an error); distinct = distinct symbol sequence + author assignment (enumeration, per run mode and split point), distinct feature vector (random: length/comment/override/ineffective-edit buckets, label count, kinds, authors) or distinct staging + fault position (fault cases)",
 		r.Pick(20000, 150000), []string{
 			"the operations handed to the reference interpreter are the payloads git-bug stored (ChangeLabels' own de-duplication is part of building the operation, not of interpreting it)",
